@@ -10,7 +10,9 @@
      cli/src/command/commons.rs  write_split_archive_path: every part through create_part (File::create when overwrite,
                                  OpenOptions::create_new otherwise), parts opened one after the other as they become
                                  necessary, the first error ends the run; on completion with exactly one part the part
-                                 is renamed to the archive path, refused when the path is occupied and overwrite is off
+                                 is renamed to the archive path, refused when the path is occupied and overwrite is off;
+                                 test and rename are skipped when the part already has the archive's name (`pna split
+                                 x.part1.pna --out-dir o` into one part: fix 067bc08d, a regression of 36c3adfe)
      cli/src/command/stdio.rs    run_create_archive (stdio -c -f F): symlink_metadata test of F, File::create (no create_dir_all)
      cli/src/command/extract.rs  extract_entry (also stdio -x): ensure_no_symlink_ancestor (a symbolic link at a directory
                                  position between the output directory and the entry is refused), symlink_metadata test of
@@ -179,11 +181,13 @@ Fixpoint write_parts (ow : bool) (s : fs) (parts : list path) : fs * bool :=
     | None => (s, false)
     end
   end.
-(* on_complete: exactly one part => rename it to the archive path, tested first when overwrite is off *)
+(* on_complete: exactly one part => rename it to the archive path, tested first when overwrite is off; nothing to do
+   when the part has that name already (`if n == 1 && first_item_path != archive`, fix 067bc08d) *)
 Definition finish_parts (ow : bool) (s : fs) (head : path) (parts : list path) : fs * N :=
   match parts with
   | [p1] =>
-    if negb ow && lexists s head then (s, 1)
+    if path_eqb p1 head then (s, 0)
+    else if negb ow && lexists s head then (s, 1)
     else match rename s p1 head with Some s1 => (s1, 0) | None => (s, 1) end
   | _ => (s, 0)
   end.
@@ -267,6 +271,28 @@ Definition run (c : cmd) (s : fs) : fs * N :=
   end.
 
 (* ---- the unrepaired code, kept for the record (D23 and the link-following test) -------- *)
+(* on_complete between 36c3adfe and 067bc08d: the existence test in front of the rename also when the single part IS
+   the archive path — it then sees the part this very run has written *)
+Definition finish_parts_orig (ow : bool) (s : fs) (head : path) (parts : list path) : fs * N :=
+  match parts with
+  | [p1] =>
+    if negb ow && lexists s head then (s, 1)
+    else match rename s p1 head with Some s1 => (s1, 0) | None => (s, 1) end
+  | _ => (s, 0)
+  end.
+Definition run_split_orig (ow : bool) (head : path) (parts : list path) (s : fs) : fs * N :=
+  match mkdirs s (parent head) with
+  | None => (s, 1)
+  | Some s1 =>
+    match parts with
+    | [] => (s1, 1)
+    | p1 :: _ => if negb ow && exists_follow s1 p1 then (s1, 1)
+                 else match write_parts ow s1 parts with
+                      | (s2, true) => finish_parts_orig ow s2 head parts
+                      | (s2, false) => (s2, 1)
+                      end
+    end
+  end.
 (* before the fix: the archive path is tested (Path::exists), every part is opened with File::create,
    the rename is unconditional *)
 Fixpoint write_parts_old (s : fs) (parts : list path) : fs * bool :=
